@@ -81,6 +81,9 @@ const (
 	SeriesNumPerTagSetForExcept = 1
 )
 
+// number of bloom filter locks - 1 (power of two minus one)
+const bfMuMask = 63
+
 var tagFilterKeyGen uint64
 var hitRatioStat = statistics.NewHitRatioStatistics()
 
@@ -270,7 +273,11 @@ type MergeSetIndex struct {
 	queues           []chan *indexRow
 	labelStoreQueues []chan *TagCol
 
+	// bfMu[i&bfMuMask] guards bf[i]: the filters are not safe for concurrent use, and
+	// lookups (any writer goroutine) run concurrently with Add (queue worker) and
+	// WriteTo (flush).
 	bf    []*bloom.BloomFilter
+	bfMu  [bfMuMask + 1]sync.RWMutex
 	cache *IndexCache
 
 	// Deleted tsids
@@ -404,7 +411,9 @@ func (idx *MergeSetIndex) flushBloomFilter() {
 			buffer := mergeset.GetIndexBuffer()
 			defer mergeset.PutIndexBuffer(buffer)
 			defer wg.Done()
+			idx.bfMu[i&bfMuMask].RLock()
 			b, err := idx.bf[i].WriteTo(buffer)
+			idx.bfMu[i&bfMuMask].RUnlock()
 			if err != nil {
 				idx.logger.Error("write mergeSet bloom filter file error", zap.Error(err))
 				return
@@ -425,6 +434,8 @@ func (idx *MergeSetIndex) bfExist() bool {
 
 func (idx *MergeSetIndex) CheckSeriesKeyExist(key []byte) bool {
 	partId := meta.HashID(key) & queueSizeMask
+	idx.bfMu[partId&bfMuMask].RLock()
+	defer idx.bfMu[partId&bfMuMask].RUnlock()
 	return idx.bf[partId].Test(key)
 }
 
@@ -433,7 +444,9 @@ func (idx *MergeSetIndex) AddNewSeriesKey(key []byte) {
 		return
 	}
 	partId := meta.HashID(key) & queueSizeMask
+	idx.bfMu[partId&bfMuMask].Lock()
 	idx.bf[partId].Add(key)
+	idx.bfMu[partId&bfMuMask].Unlock()
 }
 
 func (idx *MergeSetIndex) WriteRow(row *indexRow) {
